@@ -191,6 +191,8 @@ fn greedy_chunks(items: &[Item], bl: usize, blt: usize) -> Vec<Vec<Item>> {
 #[derive(Clone, Debug)]
 struct UnitDesc {
     lens: Vec<usize>,
+    /// unreadable lines: (file, position among the file's valid lines before which the line stands)
+    bad: Vec<(usize, usize)>,
     strat: usize,
     seed: u64,
     epoch: usize,
@@ -199,11 +201,12 @@ struct UnitDesc {
 
 impl UnitDesc {
     fn json(&self) -> Value {
-        json!({"file_lengths": self.lens, "strategy": STRAT_NAMES[self.strat], "seed": self.seed, "epoch": self.epoch, "pipeline": self.pre})
+        json!({"file_lengths": self.lens, "unreadable_lines": self.bad, "strategy": STRAT_NAMES[self.strat], "seed": self.seed, "epoch": self.epoch, "pipeline": self.pre})
     }
     fn from_json(v: &Value) -> UnitDesc {
         UnitDesc {
             lens: v["file_lengths"].as_array().unwrap().iter().map(|x| x.as_u64().unwrap() as usize).collect(),
+            bad: v["unreadable_lines"].as_array().map(|a| a.iter().map(|p| (p[0].as_u64().unwrap() as usize, p[1].as_u64().unwrap() as usize)).collect()).unwrap_or_default(),
             strat: STRAT_NAMES.iter().position(|s| *s == v["strategy"].as_str().unwrap()).unwrap(),
             seed: v["seed"].as_u64().unwrap(),
             epoch: v["epoch"].as_u64().unwrap() as usize,
@@ -212,12 +215,21 @@ impl UnitDesc {
     }
 }
 
-fn write_files(scratch: &Scratch, tag: &str, lens: &[usize]) -> Vec<String> {
+fn write_files(scratch: &Scratch, tag: &str, lens: &[usize], bad: &[(usize, usize)]) -> Vec<String> {
+    const BAD: [&str; 2] = ["this line is not json\n", "{\"text\": \"a record without an input key\"}\n"];
     lens.iter()
         .enumerate()
         .map(|(i, n)| {
             let p = scratch.path(&format!("{tag}_{i}.jsonl"));
-            let body: String = (0..*n).map(|k| format!("{{\"input\": \"s{i}l{k} {}\"}}\n", WORDS[(i + k) % 5])).collect();
+            let mut body = String::new();
+            for k in 0..=*n {
+                for (j, _) in bad.iter().enumerate().filter(|(_, b)| b.0 == i && b.1 == k) {
+                    body.push_str(BAD[j % 2]);
+                }
+                if k < *n {
+                    body.push_str(&format!("{{\"input\": \"s{i}l{k} {}\"}}\n", WORDS[(i + k) % 5]));
+                }
+            }
             std::fs::write(&p, body).expect("cannot write source file");
             p.to_str().unwrap().to_string()
         })
@@ -242,7 +254,7 @@ fn diff(a: &[Item], b: &[Item]) -> String {
 }
 
 fn check_grid_unit(run: &mut Run, scratch: &Scratch, u: &UnitDesc) {
-    let files = write_files(scratch, "g", &u.lens);
+    let files = write_files(scratch, "g", &u.lens, &u.bad);
     let total: usize = u.lens.iter().sum();
     let quick = run.quick();
     let base = Cfg { files, strat: u.strat, threads: 0, buf: 1, bl: 1, blt: 0, shuffle: false, pf: 1, sort: false, seed: u.seed, skip: 0, limit: None, dist: None, epoch: u.epoch, ff: 0, pre: u.pre };
@@ -320,6 +332,57 @@ fn check_grid_unit(run: &mut Run, scratch: &Scratch, u: &UnitDesc) {
                 }
             }
         }
+    }
+    if !u.bad.is_empty() {
+        // files with unreadable lines: skip and limit count lines, so the reference is the
+        // single-process loader with the same skip and limit; rank streams must be disjoint, their
+        // union must be exactly that stream, and every item identical to its counterpart in R
+        for skip in [0usize, 1, 2] {
+            for limit in [None, Some(3usize), Some(5)] {
+                let single = match drain(&Cfg { skip, limit, ..base.clone() }, max_batches) {
+                    Ok(b) => b.into_iter().flatten().collect::<Vec<Item>>(),
+                    Err(e) => {
+                        viol!("rank-streams", cfgjson(&Cfg { skip, limit, ..base.clone() }), e);
+                        continue;
+                    }
+                };
+                loader_runs += 1;
+                for w in 2..=3usize {
+                    let mut union: Vec<Item> = vec![];
+                    let mut seen: BTreeSet<String> = BTreeSet::new();
+                    for rank in 0..w {
+                        let c = Cfg { skip, limit, dist: Some((rank, w)), threads: (rank % 3) as u8, ..base.clone() };
+                        run.evaluations += 1;
+                        loader_runs += 1;
+                        match drain(&c, max_batches) {
+                            Err(e) => viol!("rank-streams", cfgjson(&c), e),
+                            Ok(o) => {
+                                run.compared += 1;
+                                for it in o.iter().flatten() {
+                                    if !seen.insert(it.0.clone()) {
+                                        viol!("rank-streams-disjoint", cfgjson(&c), format!("item {:?} is produced by two ranks (or twice)", it.0));
+                                    }
+                                    if r.iter().find(|x| x.0 == it.0).map(|x| x != it).unwrap_or(true) {
+                                        viol!("item-processed-identically", cfgjson(&c), format!("item {:?} differs from (or is missing in) the single-process stream", it.0));
+                                    }
+                                }
+                                union.extend(o.into_iter().flatten());
+                            }
+                        }
+                    }
+                    let mut us = union.clone();
+                    us.sort();
+                    let mut es = single.clone();
+                    es.sort();
+                    if us != es {
+                        viol!("rank-union-is-restricted-stream", cfgjson(&Cfg { skip, limit, dist: Some((0, w)), ..base.clone() }), format!("union over {w} ranks vs the single-process stream with the same skip and limit: {}", diff(&us, &es)));
+                    }
+                }
+            }
+        }
+        run.calls += loader_runs;
+        run.sample(|| json!({"unit": u.json(), "loader_runs": loader_runs, "reference_stream": names(&r)}));
+        return;
     }
     // (2) sharding, skip, limit; (3) fast-forward
     let skips: &[usize] = &[0, 1, 2];
@@ -495,7 +558,7 @@ fn sched_exec(c: &Cfg, prefix: &[usize]) -> Exec<Result<Vec<Vec<Item>>, String>>
 }
 
 fn check_sched_unit(run: &mut Run, scratch: &Scratch, u: &SchedUnit, replay_choices: Option<Vec<usize>>) {
-    let files = write_files(scratch, "s", &u.lens);
+    let files = write_files(scratch, "s", &u.lens, &[]);
     let reference = match drain(&u.cfg(files.clone(), 0), 16) {
         Ok(r) => r,
         Err(e) => {
@@ -587,9 +650,23 @@ fn grid_units(quick: bool) -> Vec<UnitDesc> {
                         if quick && pre >= 3 && (seed != 0 || epoch != 0) {
                             continue;
                         }
-                        u.push(UnitDesc { lens: lens.clone(), strat, seed, epoch, pre });
+                        u.push(UnitDesc { lens: lens.clone(), bad: vec![], strat, seed, epoch, pre });
                     }
                 }
+            }
+        }
+    }
+    // file sets with unreadable lines (a header line, a truncated record ...) at the start, in the
+    // middle, at a file boundary and at the end
+    let bad_sets: Vec<(Vec<usize>, Vec<(usize, usize)>)> = if quick {
+        vec![(vec![3], vec![(0, 0)]), (vec![4], vec![(0, 2)]), (vec![2, 2], vec![(0, 2), (1, 0)])]
+    } else {
+        vec![(vec![3], vec![(0, 0)]), (vec![4], vec![(0, 2)]), (vec![2, 2], vec![(0, 2), (1, 0)]), (vec![3], vec![(0, 1), (0, 1)]), (vec![5], vec![(0, 1), (0, 3)]), (vec![2, 3], vec![(1, 3)]), (vec![1, 1, 2], vec![(0, 0), (2, 1)])]
+    };
+    for (lens, bad) in bad_sets {
+        for strat in 0..3 {
+            for pre in [0usize, 1] {
+                u.push(UnitDesc { lens: lens.clone(), bad: bad.clone(), strat, seed: 7, epoch: 0, pre });
             }
         }
     }
